@@ -8,6 +8,7 @@ import (
 	"sort"
 	"strings"
 	"sync"
+	"sync/atomic"
 	"time"
 
 	smtp "github.com/emersion/go-smtp"
@@ -20,11 +21,14 @@ import (
 // fakeServer greets, answers every EHLO with the current extension list and
 // everything else with 250, and records every octet the client writes.
 type fakeServer struct {
-	mu   sync.Mutex
-	exts []string
-	raw  bytes.Buffer // octets received after the last Mark()
-	end  *pipe.End
+	mu       sync.Mutex
+	exts     []string
+	raw      bytes.Buffer // octets received after the last Mark()
+	end      *pipe.End
+	heloOnly bool // EHLO is refused, HELO accepted
 }
+
+var heloCases int64
 
 func newFake(exts []string) (*fakeServer, *pipe.End) {
 	c, s := pipe.New()
@@ -47,7 +51,12 @@ func (f *fakeServer) serve() {
 			return
 		}
 		up := strings.ToUpper(string(line))
+		f.mu.Lock()
+		heloOnly := f.heloOnly
+		f.mu.Unlock()
 		switch {
+		case strings.HasPrefix(up, "EHLO") && heloOnly:
+			w.Write([]byte("502 5.5.1 EHLO not implemented\r\n"))
 		case strings.HasPrefix(up, "EHLO"):
 			var sb strings.Builder
 			sb.WriteString("250-fake.test\r\n")
@@ -152,6 +161,15 @@ func runCmdCase(c *cmdCase, regreet bool) string {
 	}
 	fs, cend := newFake(adv(first))
 	defer cend.Close()
+	if len(exts) == 0 && !regreet {
+		// "no extension" comes in two ways: an EHLO reply that lists none, and a
+		// server that knows HELO only
+		if atomic.AddInt64(&heloCases, 1)%2 == 0 {
+			fs.mu.Lock()
+			fs.heloOnly = true
+			fs.mu.Unlock()
+		}
+	}
 	cl := smtp.NewClient(cend)
 	cl.CommandTimeout = 3 * time.Second
 	if err := cl.Hello("client.test"); err != nil {
